@@ -559,6 +559,9 @@ func famHash(dir string, seed int64, tier string) {
 			if it.v != nil {
 				want := refMhash(f, it.v)
 				fdesc := "H=" + f.name + " " + desc
+				if n%3 == 0 || n < len(shapes) {
+					apiHandDrivenHash(repH, ts, f, want, fdesc)
+				}
 				if e1 != nil || !bytes.Equal(s1, want) {
 					repH.violate("C09", "sink-hash-not-merkle", fmt.Sprintf("Hash = %x (%v), reference Merkle function = %x", s1, e1, want), fdesc)
 				}
@@ -754,6 +757,7 @@ func famHash(dir string, seed int64, tier string) {
 			}
 		}
 	}
+	apiTreeEditsStayPrivate(repT, "C12")
 	wH.flush()
 	wT.flush()
 	wR.flush()
@@ -959,6 +963,22 @@ func refsFor(rep *Report, w *CaseWriter, r *rand.Rand, ts []sb.Token, v *gval, f
 			}
 			return nil, nil
 		}))
+		// the same substitution by a mapping function that refills ONE scratch token for every node it replaces
+		if eS == nil {
+			scratch := &sb.Token{}
+			sub2, eS2 := collect(tr.tree.IterFunc(func(t *sb.Tree) (*sb.Token, error) {
+				if selSet[t] {
+					scratch.Kind = sb.KindRef
+					scratch.Value = append([]byte{}, t.Hash...)
+					return scratch, nil
+				}
+				return nil, nil
+			}))
+			rep.Evaluations++
+			if eS2 != nil || !tokensExactEq(sub2, sub) {
+				rep.violate("C10", "iterfunc-keeps-callers-token", fmt.Sprintf("substituting with a reused scratch token gives [%s] (%v), with a fresh token per node [%s]", truncate(descTokens(sub2), 300), eS2, truncate(descTokens(sub), 300)), fmt.Sprintf("sel=%v %s", selIdx, desc))
+			}
+		}
 		subSaved := cloneTokens(sub)
 		subHash, eH := sinkHash(sub, f)
 		subHash2, _ := sinkHash(sub, f)
